@@ -25,6 +25,10 @@ claimed = {
    text='Enumerated interrupt delivery points: for 8 loop shapes Interp.Interrupt is delivered before every executed statement (from the evaluating goroutine, from another goroutine, doubled, from inside a compiled call, with Ctrl+C-enters-debugger, between evaluations). The executor must take the interrupt within 64 executed statements (else the seam aborts the run and reports it), the evaluation must end with the interrupt panic (or enter the debugger), the next evaluation must not see a stale flag, and the C12 battery must equal a fresh interpreter.',
    note='Runs without the race detector (the async flag store is an intentional benign race). Bound of 64 statements is a budget from the property text. Fixed loop shapes only.',
    technique='deterministic simulation: exhaustive interrupt-point enumeration through the statement seam + bounded-progress monitor + battery vs fresh interpreter'),
+ 'C14': dict(level='exploration', design='3.12',
+   text='Partial: decides pointer validity / aliasing across growth of the global slot arrays and in-order visibility. The growth chunk (16 values / 1024 integer slots as shipped: large enough that the reallocation path practically never runs) is a buggified tuning knob: per run it is replaced by 0/1/2/16 and 0/1/3/8, one run in 40 replays the shipped configuration with more than 1024 integer declarations. Seeded REPL histories (one top-level statement per evaluation: declarations of integer-slot and boxed kinds, address-taking, closures and functions capturing globals, writes directly / through pointers / through closures, bursts of further declarations, read-backs) are checked step by step against a sequential store model (cells, pointers and closures as references to cells); any internal error is a violation.',
+   note='Equality with compiled Go for arbitrary statement kinds is a pure function of the program and NOT decided. Re-declarations are not generated. The model uses native Go values of the declared kinds, so arithmetic and formatting are Go\'s own.',
+   technique='deterministic simulation: buggified tuning knob (slot-array growth) + seeded REPL histories + sequential store reference model'),
  'C17': dict(level='exploration', design='3.8',
    text='The nondeterminism this property depends on - Go map iteration order inside base/dep - is put behind a seam at check time: every range over a map in the package is rewritten on a scratch copy (go/packages + go/ast) into a loop over keys permuted by the choice source and compiled in with go build -overlay (/repo untouched, regenerated from the current tree on every run). Seeded dependency graphs over 2..9 (thorough 12) declarations are rendered as source with references at several block depths and shadowing parameters/results/locals, and sorted under 1 canonical + 12 seeded iteration orders. Oracles: identical output under all orders; every name once; dependencies (known by construction) first or a forward declaration of a cycle type; exact reference order for acyclic inputs; phase split; declaration-loop error iff a cycle without types.',
    note='Free names are known by construction of the generator; no second free-variable analysis is trusted. Single-name declarations only (no multi-name var, iota groups, methods). For type cycles only determinism and ordering constraints are checked.',
